@@ -200,14 +200,14 @@ Lemma write_event_quiet : forall fx meta ini del c sp,
   end.
 Proof. intros. unfold write_event. apply write_loop_quiet; [assumption|constructor]. Qed.
 
-Definition sres_quiet (priv : bool) (r : step_result) : Prop :=
+Definition sres_quiet (priv pe : bool) (r : step_result) : Prop :=
   match r with
-  | SOk d' o => all_quiet d' /\ no_pex o /\ d_private d' = priv
+  | SOk d' o => all_quiet d' /\ no_pex o /\ d_private d' = priv /\ d_pexen d' = pe
   | _ => True
   end.
 
 Lemma settle_quiet : forall f fx d i acc,
-  all_quiet d -> no_pex acc -> sres_quiet (d_private d) (settle f fx d i acc).
+  all_quiet d -> no_pex acc -> sres_quiet (d_private d) (d_pexen d) (settle f fx d i acc).
 Proof.
   induction f as [|f IH]; intros fx d i acc Hd Ha; [exact I|].
   rewrite settle_S. cbv zeta.
@@ -236,14 +236,14 @@ Proof.
 Qed.
 
 Lemma settle_all_quiet : forall fx ids d acc,
-  all_quiet d -> no_pex acc -> sres_quiet (d_private d) (settle_all fx d ids acc).
+  all_quiet d -> no_pex acc -> sres_quiet (d_private d) (d_pexen d) (settle_all fx d ids acc).
 Proof.
   intros fx ids. induction ids as [|i r IH]; intros d acc Hd Ha.
   - cbn. auto.
   - rewrite settle_all_cons.
     pose proof (settle_quiet settle_fuel fx d i [] Hd (Forall_nil _)) as S.
     destruct (settle settle_fuel fx d i []) as [d1 o1| |]; try exact I.
-    destruct S as (Q & N & P). rewrite <- P. apply IH; [exact Q|apply no_pex_app; assumption].
+    destruct S as (Q & N & P & P2). rewrite <- P, <- P2. apply IH; [exact Q|apply no_pex_app; assumption].
 Qed.
 
 Lemma quiet_push : forall c ms, quiet (push_sock c ms) = quiet c.
@@ -290,56 +290,57 @@ Proof.
   inversion H; subst. constructor; [rewrite quiet_push; assumption|apply IH; assumption].
 Qed.
 
-Lemma tick_quiet : forall fx d, d_private d = true -> all_quiet d -> sres_quiet true (tick fx d).
+Lemma tick_quiet : forall fx d, d_private d = true -> d_pexen d = false -> all_quiet d -> sres_quiet true false (tick fx d).
 Proof.
-  intros fx d Hp Hd. unfold tick.
+  intros fx d Hp Hpe Hd. unfold tick.
   match goal with |- context [settle_all fx ?a ?b ?c] =>
     pose proof (settle_all_quiet fx b a c) as S0; destruct (settle_all fx a b c) as [d0 o0| |] end; try exact I.
-  destruct S0 as (Q0 & N0 & P0); [unfold all_quiet; cbn; apply Forall_push_quiet; exact Hd|constructor|].
-  cbn in P0. rewrite Hp in P0. rewrite P0. change (negb true) with false. cbv iota.
-  assert (CONT : forall d1, all_quiet d1 -> d_private d1 = true ->
-     sres_quiet true (let '(l2, sp2, o2) := ka_loop (length (d_conns d1)) (d_size_pex d1) (d_conns d1) in
+  destruct S0 as (Q0 & N0 & P0 & P02); [unfold all_quiet; cbn; apply Forall_push_quiet; exact Hd|constructor|].
+  cbn in P0, P02. rewrite Hp in P0. rewrite Hpe in P02. rewrite P02. cbv iota.
+  assert (CONT : forall d1, all_quiet d1 -> d_private d1 = true -> d_pexen d1 = false ->
+     sres_quiet true false (let '(l2, sp2, o2) := ka_loop (length (d_conns d1)) (d_size_pex d1) (d_conns d1) in
                       settle_all fx (set_conns d1 l2 sp2) (map c_peer l2) (o0 ++ o2))).
-  { intros d1 Q1 P1.
+  { intros d1 Q1 P1 P12.
     pose proof (ka_loop_quiet (length (d_conns d1)) (d_size_pex d1) (d_conns d1) Q1) as K.
     destruct (ka_loop (length (d_conns d1)) (d_size_pex d1) (d_conns d1)) as [[l2 sp2] o2]. destruct K as [K1 K2].
     pose proof (settle_all_quiet fx (map c_peer l2) (set_conns d1 l2 sp2) (o0 ++ o2)) as S2.
-    cbn in S2. rewrite P1 in S2. apply S2; [exact K1|apply no_pex_app; assumption]. }
+    cbn in S2. rewrite P1, P12 in S2. apply S2; [exact K1|apply no_pex_app; assumption]. }
   destruct (d_pex_active d0).
   - destruct (disable_all (d_size_pex d0) (d_conns d0)) as [l sp] eqn:Ed. cbv beta iota.
-    apply CONT; [|reflexivity]. unfold all_quiet. cbn. eapply disable_all_quiet; eauto.
+    apply CONT; [|cbn; exact P0|reflexivity]. unfold all_quiet. cbn. eapply disable_all_quiet; eauto.
   - cbv beta iota. apply CONT; assumption.
 Qed.
 
-Lemma step_quiet : forall fx d o, d_private d = true -> all_quiet d -> sres_quiet true (step fx d o).
+Lemma step_quiet : forall fx d o, d_private d = true -> d_pexen d = false -> all_quiet d -> sres_quiet true false (step fx d o).
 Proof.
-  intros fx d o Hp Hd. destruct o as [i|i ms| |i|i b]; cbn [step].
+  intros fx d o Hp Hpe Hd. destruct o as [i|i ms| |i|i b|b]; cbn [step].
   - destruct (existsb (N.eqb i) (d_used d)); cbn; [repeat split; auto; constructor|].
-    repeat split; [|constructor; [reflexivity|constructor]|exact Hp].
+    split; [|split; [constructor; [reflexivity|constructor]|split; [exact Hp|exact Hpe]]].
     unfold all_quiet. cbn. apply Forall_app. split; [exact Hd|]. constructor; [|constructor].
-    destruct (negb (d_private d) && d_pex_active d && (d_size_pex d <? Params.c20_max_size_pex)); reflexivity.
+    destruct (d_pexen d && d_pex_active d && (d_size_pex d <? Params.c20_max_size_pex)); reflexivity.
   - destruct (find_conn i (d_conns d)) as [c|] eqn:Ef; [|cbn; repeat split; auto; constructor].
-    rewrite <- Hp.
-    match goal with |- context [settle settle_fuel fx ?dd i []] => change (d_private d) with (d_private dd); apply settle_quiet end; [|constructor].
+    rewrite <- Hp, <- Hpe.
+    match goal with |- context [settle settle_fuel fx ?dd i []] => change (d_private d) with (d_private dd); change (d_pexen d) with (d_pexen dd); apply settle_quiet end; [|constructor].
     unfold all_quiet. cbn. apply Forall_replace; [|exact Hd]. rewrite quiet_push.
     apply (find_conn_P (fun c => quiet c = true) _ _ _ Hd Ef).
   - apply tick_quiet; assumption.
   - destruct (find_conn i (d_conns d)) as [c|]; [|cbn; repeat split; auto; constructor].
     match goal with |- context [if ?b then _ else _] => destruct b end; [|exact I].
-    cbn. repeat split; [|constructor|exact Hp]. unfold all_quiet. cbn. apply Forall_erase. exact Hd.
+    cbn. split; [|split; [constructor|split; [exact Hp|exact Hpe]]]. unfold all_quiet. cbn. apply Forall_erase. exact Hd.
   - destruct (find_conn i (d_conns d)) as [c|] eqn:Ef; [|cbn; repeat split; auto; constructor].
-    rewrite <- Hp.
-    match goal with |- context [settle settle_fuel fx ?dd i []] => change (d_private d) with (d_private dd); apply settle_quiet end; [|constructor].
+    rewrite <- Hp, <- Hpe.
+    match goal with |- context [settle settle_fuel fx ?dd i []] => change (d_private d) with (d_private dd); change (d_pexen d) with (d_pexen dd); apply settle_quiet end; [|constructor].
     unfold all_quiet. cbn. apply Forall_replace; [|exact Hd].
     pose proof (find_conn_P (fun c => quiet c = true) _ _ _ Hd Ef) as Hc. cbv beta in Hc.
     unfold quiet in *. cbn. destruct (c_io c); exact Hc.
+  - cbn. split; [exact Hd|split; [constructor|split; [exact Hp|]]]. rewrite Hp, Hpe. destruct b; reflexivity.
 Qed.
 
-Lemma outs_of_quiet : forall fx ops d, d_private d = true -> all_quiet d -> no_pex (outs_of fx d ops).
+Lemma outs_of_quiet : forall fx ops d, d_private d = true -> d_pexen d = false -> all_quiet d -> no_pex (outs_of fx d ops).
 Proof.
-  intros fx ops. induction ops as [|o r IH]; intros d Hp Hd; cbn [outs_of]; [constructor|].
-  pose proof (step_quiet fx d o Hp Hd) as S. destruct (step fx d o) as [d' outs| |]; try constructor.
-  destruct S as (Q & N & P). apply no_pex_app; [exact N|apply IH; assumption].
+  intros fx ops. induction ops as [|o r IH]; intros d Hp Hpe Hd; cbn [outs_of]; [constructor|].
+  pose proof (step_quiet fx d o Hp Hpe Hd) as S. destruct (step fx d o) as [d' outs| |]; try constructor.
+  destruct S as (Q & N & P & P2). apply no_pex_app; [exact N|apply IH; assumption].
 Qed.
 
 (* pex_private_silent: for a private torrent no ut_pex message is ever framed or sent, whatever the
@@ -348,10 +349,10 @@ Theorem pex_private_silent : forall fx m minp ops o,
   In o (outs_of fx (start fx true m minp) ops) -> is_pex o = false.
 Proof.
   intros fx m minp ops o Hin.
-  assert (S : d_private (start fx true m minp) = true /\ all_quiet (start fx true m minp)).
-  { unfold start. pose proof (tick_quiet fx (init true m minp) eq_refl (Forall_nil _)) as T.
-    destruct (tick fx (init true m minp)) as [d o0| |]; [destruct T as (A & B & C); auto| |]; split; try reflexivity; constructor. }
-  destruct S as [Sp Sq]. pose proof (outs_of_quiet fx ops _ Sp Sq) as N.
+  assert (S : d_private (start fx true m minp) = true /\ d_pexen (start fx true m minp) = false /\ all_quiet (start fx true m minp)).
+  { unfold start. pose proof (tick_quiet fx (init true m minp) eq_refl eq_refl (Forall_nil _)) as T.
+    destruct (tick fx (init true m minp)) as [d o0| |]; [destruct T as (A & B & C & D); auto| |]; repeat split; constructor. }
+  destruct S as (Sp & Spe & Sq). pose proof (outs_of_quiet fx ops _ Sp Spe Sq) as N.
   unfold no_pex in N. rewrite Forall_forall in N. apply N. exact Hin.
 Qed.
 
